@@ -19,11 +19,12 @@ type tree struct {
 	all       map[string][]gen.PID // every pid ever started under a name
 	children  map[string][]string  // owner name -> member names
 	failInit  map[string]bool      // members whose Init fails
+	selfFail  map[string]int       // member -> incarnation (1-based) that sends itself "fail" from Init and so dies at once
 	factories map[string]gen.ProcessFactory
 }
 
 func newTree(w *World) *tree {
-	return &tree{w: w, all: map[string][]gen.PID{}, children: map[string][]string{}, failInit: map[string]bool{}}
+	return &tree{w: w, all: map[string][]gen.PID{}, children: map[string][]string{}, failInit: map[string]bool{}, selfFail: map[string]int{}}
 }
 
 func (t *tree) record(name string, pid gen.PID) {
@@ -61,6 +62,9 @@ func (t *tree) worker(name string) gen.ProcessFactory {
 			t.record(name, p.PID())
 			if t.failInit[name] {
 				return errE
+			}
+			if k := t.selfFail[name]; k > 0 && len(t.all[name]) == k {
+				p.Send(p.PID(), "fail")
 			}
 			return nil
 		}}}
